@@ -58,7 +58,7 @@ def classify : OpRes → ResKind
 
 /-- which API an operation is -/
 inductive OpType where
-  | load | send (n : Nat) (group : Bool) | cload | srtc
+  | load | send (n : Nat) (group : Bool) | cload | srtc | ltp
   deriving DecidableEq, Repr
 
 def nodupNat : List Nat → Bool
@@ -79,6 +79,7 @@ def admits : OpType → ResKind → Bool
   | .cload, .okTrue | .cload, .coordinatorNotAvailable | .cload, .cancelled => true
   | .srtc, .simple _ | .srtc, .brokerError _ | .srtc, .timedOut | .srtc, .coordinatorNotAvailable
   | .srtc, .cancelled | .srtc, .clientClosed | .srtc, .other => true
+  | .ltp, .okTrue | .ltp, .unavailable | .ltp, .clientClosed | .ltp, .cancelled | .ltp, .other => true
   | _, _ => false
 
 /-- outcomes of `cancel()` when the Deferred completes inside the cancel call -/
@@ -91,6 +92,7 @@ def cancelAdmits : OpType → ResKind → Bool
   | .send _ _, .responses _ | .send _ _, .brokerError _ | .send _ _, .other => true  -- everything had been answered
   | .cload, .cancelled => true
   | .srtc, .cancelled => true
+  | .ltp, .cancelled | .ltp, .unavailable => true
   | _, _ => false
 
 structure MSt where
@@ -109,6 +111,7 @@ def stepItem (s : MSt) : TItem → MSt
     | .send o keys g _ _ => { s with ops := s.ops ++ [(o, .send keys.length g.isSome)] }
     | .cload o _ => { s with ops := s.ops ++ [(o, .cload)] }
     | .srtc o _ _ => { s with ops := s.ops ++ [(o, .srtc)] }
+    | .ltp o _ => { s with ops := s.ops ++ [(o, .ltp)] }
     | .cancel o => { s with cancelling := some o }
     | _ => s
   | .ob (.result o r) =>
